@@ -597,7 +597,7 @@ struct C13 : Driver {
   Verdict eval(const Case &c, Ctx &ctx) const override {
     int W = (int)c.p.at("W"), mode = (int)c.p.at("mode"), level = (int)c.p.at("level");
     size_t bound = mode == 0 ? bound_compress(W, level) : bound_decompress(W);
-    size_t first_peak = 0, first_final = 0;
+    size_t first_peak = 0, first_final = 0; unsigned first_unreaped = 0;
     Bytes operand; if (mode == 2) operand = bomb_operand(c);
     for (size_t k = 0; k < c.runs.size(); k++) {
       Bytes in; if (mode != 2) in = make_input(c, (int)k);
@@ -613,6 +613,11 @@ struct C13 : Driver {
         return Verdict::fail("bound-exceeded", "peak live heap " + std::to_string(a.peak_heap) + " bytes exceeds the frozen bound " + std::to_string(bound) + " for W=" + std::to_string(W) + " (" + r.brief() + ", input " + std::to_string(in.size()) + " bytes)");
       // growth with size: what is still allocated when the process exits must not depend on the input size
       // (a per-block buffer that is never released shows up here long before it breaks the bound)
+      // thread state is memory too: a thread that ended but was never joined or detached keeps its stack (8 MiB of address space, some of
+      // it resident) - their number must not grow with the input or the operand count either (seeded change C13-5)
+      if (k == 0) first_unreaped = a.unreaped_threads;
+      else if (a.exited(0) && a.unreaped_threads > first_unreaped)
+        return Verdict::fail("grows-with-size", "threads that ended without being joined or detached: " + std::to_string(first_unreaped) + " at size n, " + std::to_string(a.unreaped_threads) + " at " + std::to_string(1 << k) + "n - their stacks are never released (" + r.brief() + ")");
       if (k == 0) { first_peak = a.peak_heap; first_final = a.final_heap; }
       else if (a.final_heap > first_final + 65536)
         return Verdict::fail("grows-with-size", "live heap at exit grew from " + std::to_string(first_final) + " to " + std::to_string(a.final_heap) + " bytes when the input grew " + std::to_string(1 << k) + "-fold: memory that is never released (" + r.brief() + ")");
